@@ -125,7 +125,8 @@ Next ==
                       /\ nbad' = nbad + 1
                  ELSE UNCHANGED nbad
          ELSE /\ PrintT(<<"MISMATCH", l, tid, e.op, Class(e, world, r), r.res, e.res, ZeroShaped(e, world)>>)
-              /\ PrintT(<<"EXPECTED", l, r.res, r.cnt, r.vals, Project(r.w)>>)
+              \* (the expected state is printed for the reader of the log only; not for worlds with huge arrays)
+              /\ ((\A b \in 1..Len(r.w.mem) : Len(r.w.mem[b]) <= 4096) => PrintT(<<"EXPECTED", l, r.res, r.cnt, r.vals, Project(r.w)>>))
               /\ dead' = TRUE /\ nbad' = nbad + 1 /\ UNCHANGED <<world, tid, nunspec, njudged>>
 
 Spec == Init /\ [][Next]_tvars
